@@ -72,6 +72,9 @@ func (k Keeper) RegisterNewTokenAndSetTokenFeeder(ctx sdk.Context, oInfo *types.
 		// it's possible for  one price bonded with multiple assetID, like ETHUSDT from sepolia/mainnet
 		if t.Name == oInfo.Token.Name && t.ChainID == chainID {
 			t.AssetID = strings.Join([]string{t.AssetID, oInfo.AssetID}, ",")
+			if err := p.Validate(); err != nil {
+				return err
+			}
 			k.SetParams(ctx, p)
 			if !ctx.IsCheckTx() {
 				_ = GetAggregatorContext(ctx, k)
@@ -104,6 +107,11 @@ func (k Keeper) RegisterNewTokenAndSetTokenFeeder(ctx sdk.Context, oInfo *types.
 		EndBlock: 0,
 	})
 
+	// the interval comes from the caller: the new params must satisfy the same rules as a params update
+	// (interval >= 2*MaxNonce, ...) before they are stored or cached
+	if err := p.Validate(); err != nil {
+		return err
+	}
 	k.SetParams(ctx, p)
 	// skip cache update if this is not deliverTx
 	// for normal cosmostx, checkTx will skip actual message exucution and do anteHandler only, but from ethc.callContract the message will be executed without anteHandler check as checkTx mode.
